@@ -76,7 +76,7 @@ def run_tasks(tasks, nproc=None, timeout=120, env_extra=None):
                 w = None
             else:
                 results[i] = r
-                if r.get("crashed"):
+                if isinstance(r, dict) and r.get("crashed"):
                     w.kill()
                     w = None
         if w is not None:
